@@ -407,7 +407,13 @@ async fn session_main(sc: Scenario, d: Duration) -> Outcome {
             (client, events)
         }
     };
-    let collector = if sc.keep_events { Some(tokio::spawn(collect_events(world.clone(), events))) } else { None };
+    let collector = if sc.keep_events {
+        Some(tokio::spawn(collect_events(world.clone(), events)))
+    } else {
+        // the application may drop the receiver if it does not care about events
+        drop(events);
+        None
+    };
 
     // callers
     let mut handles = Vec::new();
